@@ -43,9 +43,11 @@ PROP = dict(
                   "eleven account balances, collector fees, booked fees, reserve record and supply after every operation",
                   "Model/DutchV1.lean is hand-written from x/auction/keeper/dutch.go:164-463,465-663 and x/collector/keeper/collector.go:14-39; "
                   "tied by replaying generated bid / block-hook sequences on vaults seized by the real first-generation liquidation keeper",
-                  "Model/DutchV1Lend.lean is hand-written from x/auction/keeper/dutch_lend.go:136-497; tied by real x/liquidation borrow "
-                  "liquidations (MsgLiquidateBorrow, sweep) and MsgPlaceDutchLendBid; the lend-side book-keeping of the close, the reserve "
-                  "balance and an immediate re-liquidation are external values read off the real stores / balances",
+                  "Model/DutchV1Lend.lean + Model/DutchV1LendBook.lean are hand-written from x/auction/keeper/dutch_lend.go:136-497 and "
+                  "x/liquidation/keeper/liquidate_borrow.go:241-341,354-607 (same-pool branch); tied by real x/liquidation borrow liquidations "
+                  "(MsgLiquidateBorrow, sweep; borrows aged up to a year with their interest booked) and MsgPlaceDutchLendBid, comparing after "
+                  "every line the auction record, pool / lend-module / auction-module / owner / bidder balances, the locked vault, the borrow "
+                  "position, the interest tracker and three cToken balances; only the oracle prices of the block of the bid are inputs",
                   "second-generation lend close: penalty, reserve interest and bridge amount are external values read from the lend stores; "
                   "cTokens are not tracked",
                   "x/bank (send/burn semantics, module accounts), protobuf and the KV store are exercised, not modelled beyond balances"],
@@ -82,7 +84,9 @@ META = dict(
          "at one premium (D7) break pay<=target and receive<=collateral; an insufficient app reserve is silently ignored and other users' funds "
          "in the module account pay for the close. Also found by the monitors: a limit fill clipped by exhausted collateral debits the whole "
          "remaining target from the deposit (limit_fill_overcharge).",
-    note="Partial: lend-side book-keeping at the close of a first-generation lend auction is not modelled (external inputs); cTokens are not "
-         "tracked; second-generation ESM trigger is out of scope (C14). The V2 ledger theorems carry the hypothesis 'at most one limit bid "
-         "per premium' because the code is wrong without it (D7); first-generation lend custody is exact only up to the unpaid bonus pot (D32).",
+    note="Partial: first-generation lend close is modelled for same-pool borrows (cross-pool: the bridge-asset settlement of CreteNewBorrow is "
+         "not driven); second-generation lend close takes penalty / reserve interest / bridge amount as values read from the lend stores. The exact "
+         "V2 ledger theorems carry 'at most one limit bid per premium' because the code is wrong without it (D7); debt_custody_every_history "
+         "states what holds without it. First-generation lend custody is exact only up to the unpaid bonus pot (D32). Emergency shutdown: the "
+         "iterator's branch is modelled; TriggerEsm repeats every block (D35).",
 )
